@@ -64,6 +64,8 @@ BINOPS = {"+": lambda a, b: a + b, "-": lambda a, b: a - b, "*": lambda a, b: a 
           "<": lambda a, b: sp.Lt(a, b), "<=": lambda a, b: sp.Le(a, b), ">": lambda a, b: sp.Gt(a, b), ">=": lambda a, b: sp.Ge(a, b),
           "==": lambda a, b: sp.Eq(a, b), "!=": lambda a, b: sp.Ne(a, b), "&&": lambda a, b: sp.And(a, b), "||": lambda a, b: sp.Or(a, b)}
 
+_INTEGRAL = {"char", "signed char", "unsigned char", "short", "unsigned short", "int", "unsigned int", "long", "unsigned long", "long long", "unsigned long long"}
+
 UNARY = {"exp": sp.exp, "log": sp.log, "square": lambda x: x ** 2, "abs": sp.Abs, "sign": sp.sign, "atan": sp.atan, "sqrt": sp.sqrt,
          "cube": lambda x: x ** 3, "abs2": lambda x: x ** 2, "inverse": lambda x: 1 / x, "tanh": sp.tanh, "cos": sp.cos, "sin": sp.sin}
 FREE1 = {"exp": sp.exp, "log": sp.log, "log1p": lambda x: sp.log(1 + x), "fabs": sp.Abs, "sqrt": sp.sqrt, "atan": sp.atan, "tanh": sp.tanh,
@@ -144,6 +146,9 @@ class Interp:
                 return self.ev(c[1])
             if n["op"] not in BINOPS:
                 raise OutOfFragment("binary " + n["op"])
+            if n["op"] == "/" and (n.get("t") or "").replace("const ", "").strip() in _INTEGRAL:
+                # C++ integer division truncates (the operands here are sizes / counts, non-negative)
+                return bcast(lambda a, b: sp.floor(a / b), self.ev(c[0]), self.ev(c[1]))
             return bcast(BINOPS[n["op"]], self.ev(c[0]), self.ev(c[1]))
         if k == "cond":
             cnd = self.ev(c[0])
